@@ -83,7 +83,7 @@ P('C05', claimed=True, level='other',
   unreached=['all thread interleavings / wake-up latencies (sampled with injected 0-20 ms jitter)'])
 
 P('C06', claimed=True, level='other',
-  contracts=['base_osclib'], drivers=['vf.drivers.C06'],
+  contracts=['base_osclib', 'base_netaddr'], drivers=['vf.drivers.C06'],
   level_text=('Size and refusal laws of the OSC encoders (4-byte alignment, utf-8 length + 1..4 NULs, '
               'blob size prefix + padding with its loop invariant, int32/float32/timetag ranges, NUL '
               'refused) are discharged on the real functions for all inputs. Conformance to OSC 1.0, '
